@@ -1,12 +1,12 @@
 """C13 — run() is idempotent and monotone re-runs equal a fresh run."""
 from . import core, eng, gen, engcheck
 
-THEOREMS = ["derivable_between", "derivable_union_restart", "rerun_idempotent", "monotone_rerun", "wfSt_pushRows", "run_lattice_from", "lattice_rerun_idempotent"]
+THEOREMS = ["derivable_between", "derivable_union_restart", "rerun_idempotent", "monotone_rerun", "wfSt_pushRows", "run_lattice_from", "lattice_rerun_idempotent", "restart_agg", "rerun_idempotent_agg", "std_aggPermInvariant"]
 TRUSTED = ["Lean 4.33.0 kernel", "axioms: propext, Classical.choice, Quot.sound only (audited per theorem)",
            "statement: Props/C13.lean (histories run;run and run;push;run from any well-formed program value, aggregation-free serial programs)",
            "model Model/Engine.lean (index contents persist between runs; update_indices rebuilds them from the rows, fix 8b2e261) tied by compiled programs driven "
            "through histories of run / push / dump",
-           "programs with aggregation: idempotence is tied (compiled programs, run; run) and the each-once view is proved for every later run (Props/C04 second_run_agg_view_each_once); the parallel engine is covered by C02's schedule theorems, its re-run by the tie"]
+           "programs with aggregation / negation: rerun_idempotent_agg (Props/C13Agg.lean, every stratified program, aggregators insensitive to the order of their input: std_aggPermInvariant for the library ones); the parallel engine is covered by C02's schedule theorems, its re-run by the tie"]
 
 
 def build(rng, tier):
@@ -72,7 +72,7 @@ def build(rng, tier):
             ops += [f"eng run {inst}", f"eng dump {inst}"]; marks.append(union)
             cases.append(engcheck.Case(pid, inst, ops, {"inp": inp, "marks": marks, "kind": "lattice-history"}))
     # programs WITH aggregation: the statement's first half (idempotence) is claimed for them too (failed before fix 8b2e261: finding F2)
-    for i, p in enumerate(engcheck.make_programs(rng.fork("c13agg"), 3 if tier == "quick" else 12, genf=gen.gen_agg_program, filt=eng.stratifiable)):
+    for i, p in enumerate(engcheck.make_programs(rng.fork("c13agg"), 8 if tier == "quick" else 30, genf=gen.gen_agg_program, filt=eng.stratifiable)):
         pid = f"ha{i}"
         progs[pid] = p
         mods.append((pid, eng.rs_module(pid, p)))
@@ -113,7 +113,7 @@ def oracle(c, p, out):
 
 
 def check(tier, replay=None):
-    return engcheck.run_property("C13", tier, modules=["AscentVerif.Props.C13", "AscentVerif.Props.C13L"], theorems=THEOREMS, trusted=TRUSTED, group="c13",
+    return engcheck.run_property("C13", tier, modules=["AscentVerif.Props.C13", "AscentVerif.Props.C13L", "AscentVerif.Props.C13Agg"], theorems=THEOREMS, trusted=TRUSTED, group="c13",
                                  build=build, oracle=oracle, known=known, what="histories of run / push on compiled programs",
                                  rule="generated aggregation-free programs x histories run; (run | push facts into any relations incl. derived ones; run){1..3}; "
                                       "after an unmodified re-run every relation must be unchanged as a set, after pushes it must equal the naive least model "
